@@ -91,9 +91,10 @@ fn main() {
             let mut keys = std::io::BufWriter::new(std::fs::File::create(&a[4]).unwrap());
             let tmp = tempfile::tempdir().unwrap(); let cwd = tmp.path().join("crate"); std::fs::create_dir_all(cwd.join("src")).unwrap(); std::fs::create_dir_all(cwd.join("deps")).unwrap(); std::fs::create_dir_all(cwd.join("out")).unwrap(); std::fs::create_dir_all(cwd.join("out2")).unwrap(); std::fs::create_dir_all(cwd.join("nat")).unwrap();
             let write_world = |v: u32| {
-                std::fs::write(cwd.join("src/lib.rs"), format!("mod m;\npub fn f() -> usize {{ m::g() + include_str!(\"data.txt\").len() + option_env!(\"MY_VAR\").map(|s| s.len()).unwrap_or(0) + option_env!(\"CARGO_PKG_NAME\").map(|s| s.len()).unwrap_or(0) + {} }}\n#[cfg(not(nodep))] pub fn d() -> u32 {{ dep::d() }}\n", v)).unwrap();
+                std::fs::write(cwd.join("src/lib.rs"), format!("mod m;\npub fn f() -> usize {{ m::g() + include_str!(\"data.txt\").len() + 2 * include_str!(\"data2.txt\").len() + option_env!(\"MY_VAR\").map(|s| s.len()).unwrap_or(0) + option_env!(\"CARGO_PKG_NAME\").map(|s| s.len()).unwrap_or(0) + {} }}\n#[cfg(not(nodep))] pub fn d() -> u32 {{ dep::d() }}\n", v)).unwrap();
                 std::fs::write(cwd.join("src/m.rs"), "pub fn g() -> usize { 1 }\n").unwrap();
                 std::fs::write(cwd.join("src/data.txt"), "data\n").unwrap();
+                std::fs::write(cwd.join("src/data2.txt"), "other data\n").unwrap();
             };
             write_world(0);
             std::fs::write(cwd.join("dep.rs"), "pub fn d() -> u32 { 7 }\n").unwrap();
@@ -146,7 +147,12 @@ fn main() {
                 if samples.len() < 2 && k.is_some() { samples.push(format!("{} => {}", show(&case), k.clone().unwrap())); }
                 let k = match k { Some(k) => k, None => continue };
                 // ---- metamorphic pairs on the real key
-                match ci % 6 {
+                match ci % 7 {
+                    6 => { // the contents of two source files of the crate change places (same multiset of digests, different crate)
+                        std::fs::write(cwd.join("src/data.txt"), "other data\n").unwrap(); std::fs::write(cwd.join("src/data2.txt"), "data\n").unwrap();
+                        let c2 = Case { argv: case.argv.clone(), env: case.env.clone() };
+                        let k2 = key_of(&c2, &mut reqs, &mut keys); write_world(0);
+                        if k2.as_ref() == Some(&k) { fails.push(fail_json("key_blind_to_input", &format!("src/data.txt and src/data2.txt (both include_str!-ed) exchanged their contents: {}", show(&case)), &[], "")); } }
                     0 => { // reorder the --cfg / --extern / -L groups and the environment: same key
                         let mut groups: Vec<Vec<Vec<u8>>> = vec![]; let mut i = 0; let two = ["--cfg", "--extern", "-L", "--crate-name", "--crate-type", "--emit", "--out-dir", "-C", "--cap-lints", "--color", "--error-format", "--target"];
                         while i < case.argv.len() { if two.iter().any(|f| case.argv[i] == f.as_bytes()) { groups.push(vec![case.argv[i].clone(), case.argv[i + 1].clone()]); i += 2; } else { groups.push(vec![case.argv[i].clone()]); i += 1; } }
